@@ -522,6 +522,49 @@ func (p *Prog) Field(pkgShort, typ, field string) *types.Var {
 			return st.Field(i)
 		}
 	}
+	// a field of the reference tree under another name: the reference table knows the field's type; exactly one
+	// field of that type that the table does not know, and no other missing field of that type
+	if p.Baseline != nil {
+		q := func(pk *types.Package) string { return pk.Path() }
+		prefix := "fld\t" + pkgShort + "." + typ + "."
+		want := ""
+		known := map[string]string{} // reference field name -> type
+		for k := range p.Baseline {
+			if strings.HasPrefix(k, prefix) {
+				parts := strings.SplitN(k[len(prefix):], "\t", 2)
+				if len(parts) == 2 {
+					known[parts[0]] = parts[1]
+					if parts[0] == field {
+						want = parts[1]
+					}
+				}
+			}
+		}
+		if want != "" {
+			present := map[string]bool{}
+			for i := 0; i < st.NumFields(); i++ {
+				present[st.Field(i).Name()] = true
+			}
+			missing := 0
+			for name, t := range known {
+				if t == want && !present[name] {
+					missing++
+				}
+			}
+			var cand *types.Var
+			n := 0
+			for i := 0; i < st.NumFields(); i++ {
+				f := st.Field(i)
+				if _, isKnown := known[f.Name()]; !isKnown && types.TypeString(f.Type(), q) == want {
+					cand = f
+					n++
+				}
+			}
+			if missing == 1 && n == 1 {
+				return cand
+			}
+		}
+	}
 	return nil
 }
 
